@@ -8,6 +8,12 @@ NOT_APPLICABLE = {f"C{i:02d}": _PENDING for i in range(1, 21)}
 TRUST = "Trusted: rustc/std float semantics, the harness' own oracle code, the python driver. Held = held on the executions observed (exhaustive only for the sub-domains named in evidence)."
 
 CLAIMS = {
+    "C07": {
+        "text": "Runtime monitor whose oracle is finiteness + catch_unwind: all 1608 listed conversion pairs (54 colour types x f32/f64 in five white-point groups: D65 incl. AdobeRgb/Rec709/Rec2020/DisplayP3 and hexcone/Ok*/Luv/Lab families, D50/ProPhoto, DCI-P3, and sRGB primaries with white points E and A) in their unclamped, clamping and checked forms, plus clamp, clamp_assign and is_within_bounds, are executed on the full cross-product boundary lattice of the source space (each component on a bound, a billionth of the range inside it, zero, +-billionth around zero, mid-range; sector-edge hues; w+b<=1 for HWB) and on seeded in-range points (150 per pair quick, 20000 thorough).",
+        "design_ref": "DESIGN.md section 3, C07",
+        "note": TRUST + " Operators, blends and colour differences are covered for finiteness by the monitors of C08, C09 and C10 (their outputs are checked for NaN/inf too).",
+        "technique": "runtime monitoring: boundary-lattice + seeded workload through the real conversions with a finiteness/panic oracle",
+    },
     "C12": {
         "text": "Runtime monitors with exact models: (1) every string of length <= 7 (thorough 9) over an 11-symbol adversarial alphabet (hex digits, non-hex letter, signs, '#', space, a 2-byte and a 4-byte character) and every single-symbol substitution/insertion/truncation of all-hex strings of each accepted length is parsed as each of the 10 parsable Rgb/Rgba types and compared with a strict recogniser/evaluator, panics caught; (2) {:x}/{:X} text of Rgb<u8> (thorough: all 2^24; quick: every 3rd) and seeded Rgba/u16/u32 values is compared with the expected zero-padded text and parsed back with and without '#'; (3) packed u32 values (thorough: all 2^32; quick: every 61st) are unpacked/packed in the four channel orders and checked against a big-endian byte-position model, incl. From<u32>/Into<u32>, [u8;4] packing and all 2^16 luma codes in both orders; (4) every named constant is looked up by its lower-case name against the frozen W3C table and ~25 000 near-miss and random non-names must not be found.",
         "design_ref": "DESIGN.md section 3, C12",
